@@ -119,6 +119,9 @@ def _check_main(ctx, rep: Report):
                             s = ast.unparse(x)
                             if s.startswith("self._list") or s.startswith("self._dict"):
                                 t = s
+                            elif isinstance(x, (ast.Attribute, ast.Subscript)) and (
+                                    ast.unparse(x).split("[")[0].endswith("._list") or ast.unparse(x).split("[")[0].endswith("._dict")):
+                                t = s        # the stores of *another* container object (e.g. a result being built) written from outside its own primitives
                     if isinstance(n, ast.Call) and isinstance(n.func, ast.Attribute) and \
                             ast.unparse(n.func.value) in ("self._list", "self._dict") and \
                             n.func.attr in ("insert", "append", "pop", "remove", "clear", "extend", "reverse", "sort", "update", "setdefault", "popitem", "__setitem__", "__delitem__"):
@@ -143,7 +146,10 @@ def _check_main(ctx, rep: Report):
                         allowed.add(n.func.attr)
                         changed = True
     for name, sites in writers.items():
-        ok = name in allowed
+        foreign = [s_ for s_ in sites if not s_[0].startswith("self.")]
+        ok = name in allowed and not foreign
+        if foreign:
+            sites = foreign
         rep.oblige("C13.COH", f"writer:{name}", ok)
         if not ok:
             rep.violate(Violation("C13.COH", f"C13.COH|writer|{name}", f"KeyedList.{name} writes the stores directly (`{sites[0][0]}`) outside the paired primitives", f"{mrel}:{sites[0][1]}", f"KeyedList.{name}"))
